@@ -49,6 +49,10 @@ static struct lit spec_parse(const char *s, int maxlen) {
   if (r.blen == 0 || s[i] != 0) return r;
   r.ok = 1; return r;
 }
+/* x * 10^k by k conditional shift-adds (no general multiplier: 64-bit products make the SAT instance intractable beyond 5 bytes) */
+static u64 scale10(u64 x, int k) { for (int i = 0; i < 2 * OSMT_N + 8; i++) if (i < k) x = (x << 3) + (x << 1); return x; }
+/* k if d == 10^k (k <= 2N+8), else -1 */
+static int log10exact(u64 d) { u64 p = 1; int r = -1; for (int i = 0; i < 2 * OSMT_N + 8; i++) { if (d == p) r = i; p = (p << 3) + (p << 1); } return r; }
 static u64 pow10u(int k) { u64 p = 1; for (int i = 0; i < k && i < 2 * OSMT_N + 8; i++) p *= 10; return p; }
 /* characters that can occur in a numeric literal at all */
 static int lit_char(char c) { return is_dig(c) || c == '.' || c == '/' || c == '-'; }
